@@ -64,21 +64,24 @@ Proof.
 Qed.
 
 (* every mode reads source cells only *)
+Lemma some_inj (x y : Z) : Some x = Some y -> x = y.
+Proof. congruence. Qed.
+
 Lemma pad_src_range (md : pmode) (k j s : Z) :
   (0 < k)%Z -> pad_src md k j = Some s -> (0 <= s < k)%Z.
 Proof.
   intros Hk. unfold pad_src, in_range1.
   destruct ((0 <=? j)%Z && (j <? k)%Z) eqn:E.
-  - intro H; inversion H; subst. apply andb_true_iff in E. destruct E as [A B].
+  - intro H; apply some_inj in H; subst s. apply andb_true_iff in E. destruct E as [A B].
     apply Z.leb_le in A. apply Z.ltb_lt in B. lia.
   - destruct md; intro H.
     + discriminate.
-    + injection H as <-. unfold Qclip. lia.
-    + injection H as <-. apply Z.mod_pos_bound. lia.
-    + injection H as <-. pose proof (Z.mod_pos_bound j (2 * k) ltac:(lia)) as M.
+    + apply some_inj in H; subst s. unfold Qclip. lia.
+    + apply some_inj in H; subst s. apply Z.mod_pos_bound. lia.
+    + apply some_inj in H; subst s. pose proof (Z.mod_pos_bound j (2 * k) ltac:(lia)) as M.
       destruct (j mod (2 * k) <? k)%Z eqn:L; [apply Z.ltb_lt in L | apply Z.ltb_ge in L]; lia.
-    + destruct (k =? 1)%Z eqn:K1; [injection H as <-; lia|]. apply Z.eqb_neq in K1.
-      injection H as <-. pose proof (Z.mod_pos_bound j (2 * k - 2) ltac:(lia)) as M.
+    + destruct (k =? 1)%Z eqn:K1; [apply some_inj in H; subst s; lia|]. apply Z.eqb_neq in K1.
+      apply some_inj in H; subst s. pose proof (Z.mod_pos_bound j (2 * k - 2) ltac:(lia)) as M.
       destruct (j mod (2 * k - 2) <? k)%Z eqn:L; [apply Z.ltb_lt in L | apply Z.ltb_ge in L]; lia.
 Qed.
 
@@ -120,7 +123,7 @@ Hypothesis Hk : (0 < k)%Z.
 Let c := cell_of lo hi k.
 
 Let Hc : 0 < c := cell_pos lo hi k Hlh Hk.
-Let Hn : inject_Z k * c == hi - lo := cell_times_n lo hi k Hlh Hk.
+Let Hn : inject_Z k * c == hi - lo := cell_times_n lo hi k Hk.
 
 (* cell lookup for every accepted coordinate lo <= x <= hi: in range, the closed cell contains x *)
 Lemma cell_of_coord x : lo <= x -> x <= hi ->
@@ -128,11 +131,11 @@ Lemma cell_of_coord x : lo <= x -> x <= hi ->
   (0 <= i < k)%Z /\ lo + inject_Z i * c <= x /\ x <= lo + (inject_Z i + 1) * c /\
   (x < hi -> x < lo + (inject_Z i + 1) * c).
 Proof.
-  intros H0 H1 i. split; [apply p2i1_range; assumption|].
+  intros H0 H1 i. split; [apply (p2i1_range lo hi k Hk)|].
   destruct (Qlt_le_dec x hi) as [L | L].
-  - destruct (p2i1_cell lo hi k Hlh Hk x H0 L) as [A B]. fold c in A, B. fold i in A, B.
-    repeat split; try lra. intros _. exact B.
-  - assert (E : i = (k - 1)%Z) by (apply p2i1_upper; assumption).
+  - destruct (p2i1_cell Hlh Hk x H0 L) as [A B]. fold c in A, B. fold i in A, B.
+    repeat split; try lra.
+  - assert (E : i = (k - 1)%Z) by (apply (p2i1_upper Hlh Hk); assumption).
     rewrite E. rewrite inject_Z_minus. change (inject_Z 1) with 1.
     repeat split; try lra.
 Qed.
@@ -230,7 +233,7 @@ Proof.
   destruct (Qfloor_bounds ((q - lo) / c)) as [F0 F1]. fold f in F0, F1.
   assert (A : (0 <= f)%Z).
   { apply Z.lt_succ_r. apply injZ_lt_inv. unfold Z.succ. rewrite inject_Z_plus. change (inject_Z 1) with 1.
-    apply (mul_lt_c_inv c); [exact Hc|]. pose proof (mul_lt_c c _ _ Hc F1). lra. }
+    apply (mul_lt_c_inv c); [exact Hc|]. pose proof (mul_lt_c c _ _ Hc F1). change (inject_Z 0) with 0. lra. }
   assert (B : (f < k)%Z).
   { apply injZ_lt_inv. apply (mul_lt_c_inv c); [exact Hc|].
     pose proof (mul_le_c c _ _ Hc F0). lra. }
@@ -329,7 +332,7 @@ Proof.
   assert (P : forall x y, x == y -> p2i1 lo c k x = p2i1 lo c k y).
   { intros x y E. unfold p2i1. rewrite E. reflexivity. }
   rewrite (P _ _ E1), (P _ _ E2).
-  split; apply (p2i1_i2p1 lo hi k Hlh Hk); lia.
+  split; apply (p2i1_i2p1 Hlh Hk); lia.
 Qed.
 
 (* ---- padding: wl cells below, wh cells above ---- *)
@@ -360,7 +363,7 @@ Lemma nearest_contains q i : lo <= q -> q <= hi -> is_nearest q i ->
   lo + inject_Z i * c <= q /\ q <= lo + (inject_Z i + 1) * c.
 Proof.
   intros H0 H1 [[I0 I1] N].
-  assert (Ci : forall j, i2p1 lo c j == lo + (inject_Z j + (1 # 2)) * c) by (intro j; apply centre_formula).
+  assert (Ci : forall j, i2p1 lo c j == lo + (inject_Z j + (1 # 2)) * c) by (intro j; apply (centre_formula lo hi k)).
   split.
   - destruct (Qlt_le_dec q (lo + inject_Z i * c)) as [L | L]; [exfalso | exact L].
     assert (Ipos : (0 < i)%Z).
@@ -368,7 +371,7 @@ Proof.
     specialize (N (i - 1)%Z ltac:(lia)).
     rewrite !Ci in N. rewrite inject_Z_minus in N. change (inject_Z 1) with 1 in N.
     set (d := lo + (inject_Z i + (1 # 2)) * c - q) in *.
-    assert (D : c / 2 < d) by (unfold d; lra).
+    assert (D : (1 # 2) * c < d) by (unfold d; lra).
     assert (Ed : lo + (inject_Z i - 1 + (1 # 2)) * c - q == d - c) by (unfold d; ring).
     rewrite Ed in N.
     assert (A1 : Qabs d == d) by (apply Qabs_pos; lra). rewrite A1 in N.
@@ -380,7 +383,7 @@ Proof.
     specialize (N (i + 1)%Z ltac:(lia)).
     rewrite !Ci in N. rewrite inject_Z_plus in N. change (inject_Z 1) with 1 in N.
     set (d := q - (lo + (inject_Z i + (1 # 2)) * c)) in *.
-    assert (D : c / 2 < d) by (unfold d; lra).
+    assert (D : (1 # 2) * c < d) by (unfold d; lra).
     assert (E0 : lo + (inject_Z i + (1 # 2)) * c - q == - d) by (unfold d; ring).
     assert (Ed : lo + (inject_Z i + 1 + (1 # 2)) * c - q == c - d) by (unfold d; ring).
     rewrite E0, Ed in N.
@@ -396,21 +399,22 @@ Proof.
   destruct (cell_of_coord q H0 H1) as [R [A [B _]]].
   set (i := p2i1 lo c k q) in *.
   split; [exact R|]. intros i' R'.
-  rewrite !centre_formula.
-  assert (Hd : Qabs (lo + (inject_Z i + (1 # 2)) * c - q) <= c / 2).
+  assert (Ci : forall j, i2p1 lo c j == lo + (inject_Z j + (1 # 2)) * c) by (intro j; apply (centre_formula lo hi k)).
+  rewrite !Ci.
+  assert (Hd : Qabs (lo + (inject_Z i + (1 # 2)) * c - q) <= (1 # 2) * c).
   { apply Qabs_Qle_condition. split; lra. }
   destruct (Z.lt_trichotomy i' i) as [L | [L | L]].
   - assert (inject_Z i' + 1 <= inject_Z i).
     { change 1 with (inject_Z 1). rewrite <- inject_Z_plus. apply injZ_le. lia. }
     pose proof (mul_le_c c _ _ Hc H).
-    assert (G : c / 2 <= q - (lo + (inject_Z i' + (1 # 2)) * c)) by lra.
+    assert (G : (1 # 2) * c <= q - (lo + (inject_Z i' + (1 # 2)) * c)) by lra.
     eapply Qle_trans; [exact Hd|]. eapply Qle_trans; [exact G|].
     rewrite <- Qabs_opp. eapply Qle_trans; [|apply Qle_Qabs]. lra.
   - subst i'. lra.
   - assert (inject_Z i + 1 <= inject_Z i').
     { change 1 with (inject_Z 1). rewrite <- inject_Z_plus. apply injZ_le. lia. }
     pose proof (mul_le_c c _ _ Hc H).
-    assert (G : c / 2 <= lo + (inject_Z i' + (1 # 2)) * c - q) by lra.
+    assert (G : (1 # 2) * c <= lo + (inject_Z i' + (1 # 2)) * c - q) by lra.
     eapply Qle_trans; [exact Hd|]. eapply Qle_trans; [exact G|]. apply Qle_Qabs.
 Qed.
 
